@@ -7,7 +7,7 @@ E = ["E3 POSIX models read/write/lseek/close/errno (units/file_io.harness.c): an
 def units():
     U = []
     inv = ("0 <= total && total <= (1LL << 31) && 0 <= items && items <= (1LL << 31) && total + items == __CPROVER_loop_entry (items) "
-           "&& 0 <= g_eintr_budget && g_eintr_budget <= 1000")
+           "&& 0 <= g_eintr_budget && g_eintr_budget <= 1000 && psf->error == __CPROVER_loop_entry (psf->error)")
     for fn, entry in (("psf_fread", "h_fread"), ("psf_fwrite", "h_fwrite")):
         for b in (1, 2, 3, 4, 8):
             U.append({"name": "file_io.%s.bytes%d" % (fn, b), "props": ["C14", "C15", "C19"], "harness": "file_io.harness.c", "entry": entry,
